@@ -46,6 +46,20 @@ Definition SMUTEX := "Service::mutex_".
 Definition VQUEUE := "Deployer::pending_tasks_".
 Definition VHANDLER := "Service::notification_handler_".
 Definition VSINK := "Deployer::message_sink_".
+Definition VRUNNING := "Deployer::running_".
+Definition VMM := "Deployer::maintenance_mode_".
+Definition VWORK := "Deployer::work_".
+
+(** How the client's StartWork and the worker's exit hand the worker role over.
+    [HFuture]: the code before the repair of the exit window - StartWork tests IsWorking()
+    (the future), the worker's last HasPendingTasks() test and its return are separate.
+    [HFlag]: the repaired code - a flag running_ guarded by Deployer::mutex_; the worker's
+    exit test (FinishWork) clears it in the critical section that finds the queue empty,
+    StartWork tests it, the queue, and sets it in one critical section.
+    [HUnrecognised]: anything else (no theorem is claimed; the semantics then behaves as HFuture). *)
+Inductive handover := HFuture | HFlag | HUnrecognised.
+Definition handover_eqb (a b : handover) : bool :=
+  match a, b with HFuture, HFuture | HFlag, HFlag | HUnrecognised, HUnrecognised => true | _, _ => false end.
 
 (** The part of the table the semantics depends on. *)
 Record cfg := mkCfg {
@@ -55,21 +69,16 @@ Record cfg := mkCfg {
   lk_set : bool;    (* SetNotificationHandler writes under Service::mutex_ *)
   lk_clear : bool;  (* ClearNotificationHandler writes under Service::mutex_ *)
   lk_ntest : bool;  (* Notify tests the handler under Service::mutex_ *)
-  lk_ncall : bool   (* Notify calls the handler under Service::mutex_ *)
+  lk_ncall : bool;  (* Notify calls the handler under Service::mutex_ *)
+  ho : handover     (* the StartWork/Run hand-over protocol the table shows *)
 }.
+Definition nw (c : cfg) : bool := match ho c with HFlag => true | _ => false end.
+Definition with_handover (h : handover) (c : cfg) : cfg :=
+  {| lk_sched := lk_sched c; lk_next := lk_next c; lk_hasp := lk_hasp c; lk_set := lk_set c; lk_clear := lk_clear c;
+     lk_ntest := lk_ntest c; lk_ncall := lk_ncall c; ho := h |}.
 
 Definition nth_locked (rs : list acc_row) (n : nat) (m : string) : bool :=
   match nth_error rs n with Some r => has_lock m r | None => false end.
-
-Definition cfg_of_table (tbl : list acc_row) : cfg :=
-  let nrows := rows_var tbl "Service::Notify" VHANDLER in
-  {| lk_sched := all_locked DMUTEX (rows_var tbl "Deployer::ScheduleTask" VQUEUE);
-     lk_next := all_locked DMUTEX (rows_var tbl "Deployer::NextTask" VQUEUE);
-     lk_hasp := all_locked DMUTEX (rows_var tbl "Deployer::HasPendingTasks" VQUEUE);
-     lk_set := all_locked SMUTEX (rows_var tbl "Service::SetNotificationHandler" VHANDLER);
-     lk_clear := all_locked SMUTEX (rows_var tbl "Service::ClearNotificationHandler" VHANDLER);
-     lk_ntest := nth_locked nrows 0 SMUTEX;
-     lk_ncall := nth_locked nrows 1 SMUTEX |}.
 
 (** Shapes of the functions whose statement order the model's programs rely on:
     the (variable/callee, kind) sequence of each, as the translator must find it.
@@ -85,18 +94,15 @@ Fixpoint list_eqb {A} (eqb : A -> A -> bool) (a b : list A) : bool :=
   | _, _ => false
   end.
 
+(** functions whose shape is the same before and after the repair of the hand-over *)
 Definition expected_shapes : list (string * list (string * akind)) := [
   ("Deployer::ScheduleTask", [("Deployer::ScheduleTask", ACall); (VQUEUE, AWrite)]);
   ("Deployer::NextTask", [(VQUEUE, ARead); (VQUEUE, ARead); (VQUEUE, AWrite)]);
   ("Deployer::HasPendingTasks", [(VQUEUE, ARead)]);
-  ("Deployer::Run", [(VSINK, ARead); ("Deployer::NextTask", ACall); (VSINK, ARead); ("Deployer::HasPendingTasks", ACall)]);
-  ("Deployer::StartWork", [("Deployer::IsWorking", ACall); ("Deployer::maintenance_mode_", AWrite);
-                           (VQUEUE, ARead); (VQUEUE, ARead); ("Deployer::work_", AWrite);
-                           ("Deployer::Run", ACall); ("Deployer::work_", ARead)]);
   ("Deployer::StartMaintenance", [("Deployer::StartWork", ACall)]);
-  ("Deployer::IsWorking", [("Deployer::work_", ARead); ("Deployer::work_", ARead)]);
-  ("Deployer::IsMaintenanceMode", [("Deployer::maintenance_mode_", ARead); ("Deployer::IsWorking", ACall)]);
-  ("Deployer::JoinWorkThread", [("Deployer::work_", ARead); ("Deployer::work_", AWrite)]);
+  ("Deployer::IsWorking", [(VWORK, ARead); (VWORK, ARead)]);
+  ("Deployer::IsMaintenanceMode", [(VMM, ARead); ("Deployer::IsWorking", ACall)]);
+  ("Deployer::JoinWorkThread", [(VWORK, ARead); (VWORK, AWrite)]);
   ("Deployer::JoinMaintenanceThread", [("Deployer::JoinWorkThread", ACall)]);
   ("Service::disabled", [("Service::started_", ARead); ("Deployer::IsMaintenanceMode", ACall)]);
   ("Service::CreateSession", [("Service::disabled", ACall); ("Service::sessions_", AWrite)]);
@@ -108,8 +114,67 @@ Definition expected_shapes : list (string * list (string * akind)) := [
   ("Service::Notify", [(VHANDLER, ARead); (VHANDLER, ARead)])
 ].
 
+(** the hand-over before the repair: Run ends with `while (HasPendingTasks())`; StartWork tests
+    IsWorking(), writes maintenance_mode_, looks at the queue without the lock (no worker exists
+    then), spawns; there is no FinishWork and no running_ *)
+Definition expected_shapes_future : list (string * list (string * akind)) := [
+  ("Deployer::Run", [(VSINK, ARead); ("Deployer::NextTask", ACall); (VSINK, ARead); ("Deployer::HasPendingTasks", ACall)]);
+  ("Deployer::FinishWork", []);
+  ("Deployer::StartWork", [("Deployer::IsWorking", ACall); (VMM, AWrite);
+                           (VQUEUE, ARead); (VQUEUE, ARead); (VWORK, AWrite);
+                           ("Deployer::Run", ACall); (VWORK, ARead)])
+].
+
+(** the repaired hand-over: Run ends with `while (!FinishWork())`; FinishWork tests the queue and
+    clears running_; StartWork tests running_, writes maintenance_mode_, tests the queue (empty(),
+    size()), sets running_ - then waits for the previous worker's future (valid(), wait()), assigns
+    the new one (the lambda calls Run and clears running_ when Run throws), valid() *)
+Definition expected_shapes_flag : list (string * list (string * akind)) := [
+  ("Deployer::Run", [(VSINK, ARead); ("Deployer::NextTask", ACall); (VSINK, ARead); ("Deployer::FinishWork", ACall)]);
+  ("Deployer::FinishWork", [(VQUEUE, ARead); (VRUNNING, AWrite)]);
+  ("Deployer::StartWork", [(VRUNNING, ARead); (VMM, AWrite); (VQUEUE, ARead); (VQUEUE, ARead); (VRUNNING, AWrite);
+                           (VWORK, ARead); (VWORK, ARead); (VWORK, AWrite);
+                           ("Deployer::Run", ACall); (VRUNNING, AWrite); (VWORK, ARead)])
+].
+
+Definition shapes_match (tbl : list acc_row) (es : list (string * list (string * akind))) : bool :=
+  forallb (fun e => list_eqb pair_eqb (shape tbl (fst e)) (snd e)) es.
+
+(** every access to running_ anywhere, and every access of FinishWork and StartWork to the queue,
+    is made under Deployer::mutex_ (this is what makes the worker's exit
+    test and the client's decision single steps of the model) *)
+Definition flag_locked (tbl : list acc_row) : bool :=
+  forallb (fun r => negb (String.eqb (a_var r) VRUNNING) || has_lock DMUTEX r) tbl &&
+  all_locked DMUTEX (rows_var tbl "Deployer::FinishWork" VQUEUE) &&
+  all_locked DMUTEX (rows_var tbl "Deployer::FinishWork" VRUNNING) &&
+  all_locked DMUTEX (rows_var tbl "Deployer::StartWork" VQUEUE) &&
+  all_locked DMUTEX (rows_var tbl "Deployer::StartWork" VRUNNING) &&
+  all_locked DMUTEX (rows_var tbl "Deployer::ScheduleTask" VQUEUE) &&
+  all_locked DMUTEX (rows_var tbl "Deployer::NextTask" VQUEUE).
+
+(** the table uses running_ nowhere *)
+Definition no_flag (tbl : list acc_row) : bool :=
+  forallb (fun r => negb (String.eqb (a_var r) VRUNNING)) tbl.
+
+Definition handover_of_table (tbl : list acc_row) : handover :=
+  if shapes_match tbl expected_shapes_future && no_flag tbl then HFuture
+  else if shapes_match tbl expected_shapes_flag && flag_locked tbl then HFlag
+  else HUnrecognised.
+
 Definition table_shape_ok (tbl : list acc_row) : bool :=
-  forallb (fun e => list_eqb pair_eqb (shape tbl (fst e)) (snd e)) expected_shapes.
+  shapes_match tbl expected_shapes &&
+  negb (handover_eqb (handover_of_table tbl) HUnrecognised).
+
+Definition cfg_of_table (tbl : list acc_row) : cfg :=
+  let nrows := rows_var tbl "Service::Notify" VHANDLER in
+  {| lk_sched := all_locked DMUTEX (rows_var tbl "Deployer::ScheduleTask" VQUEUE);
+     lk_next := all_locked DMUTEX (rows_var tbl "Deployer::NextTask" VQUEUE);
+     lk_hasp := all_locked DMUTEX (rows_var tbl "Deployer::HasPendingTasks" VQUEUE);
+     lk_set := all_locked SMUTEX (rows_var tbl "Service::SetNotificationHandler" VHANDLER);
+     lk_clear := all_locked SMUTEX (rows_var tbl "Service::ClearNotificationHandler" VHANDLER);
+     lk_ntest := nth_locked nrows 0 SMUTEX;
+     lk_ncall := nth_locked nrows 1 SMUTEX;
+     ho := handover_of_table tbl |}.
 
 (** * Threads, program counters, calls, events *)
 Inductive tid := Client | Worker.
@@ -134,7 +199,7 @@ Inductive wpc :=
 | WN (m : msg) (n : npc)      (* inside message_sink_("deploy", ...) -> Service::Notify *)
 | WNext                       (* RIME_VERIF_NEXTTASK_ENTER *)
 | WBody (t : nat) (r : outcome)  (* RIME_VERIF_RUN_TASK_BODY, task popped *)
-| WHasP                       (* RIME_VERIF_HASPENDING_ENTER *)
+| WHasP                       (* RIME_VERIF_HASPENDING_ENTER (HFlag: RIME_VERIF_FINISHWORK_ENTER) *)
 | WRet                        (* RIME_VERIF_RUN_RETURN *)
 | WThrow                      (* std::bad_function_call escaping Run *)
 | WFin.                       (* lambda over, shared state about to be made ready *)
@@ -154,8 +219,9 @@ Inductive sop := OpKey | OpCtx | OpFind.
 Inductive cpc :=
 | CIdle                               (* between two API calls *)
 | CSched (rs : list outcome) (k : kont)  (* RIME_VERIF_SCHEDULE_ENTER of the next ScheduleTask *)
-| CSW0 (k : kont)                     (* StartWork: about to test IsWorking() *)
-| CSW1 (k : kont)                     (* RIME_VERIF_STARTWORK_TESTED: about to write maintenance_mode_ *)
+| CSW0 (k : kont)                     (* StartWork: about to test IsWorking() (HFlag: about to enter its critical section) *)
+| CSW1 (k : kont)                     (* RIME_VERIF_STARTWORK_TESTED: about to write maintenance_mode_ (HFlag: decided to
+                                         start a worker, running_ set; about to wait for the previous worker's future) *)
 | CSW2 (k : kont)                     (* about to test pending_tasks_.empty() *)
 | CSW3 (k : kont)                     (* about to spawn *)
 | CSW4 (k : kont)                     (* RIME_VERIF_STARTWORK_SPAWNED *)
@@ -180,6 +246,7 @@ Inductive event :=
 Record state := mkState {
   queue : list task;
   mm : bool;
+  running : bool;   (* Deployer::running_ (always false before the repair: the member does not exist) *)
   work : fut;
   wexc : bool;
   started : bool;
@@ -199,46 +266,48 @@ Record state := mkState {
 }.
 
 Definition set_queue (v : list task) (s : state) : state :=
-  {| queue := v; mm := mm s; work := work s; wexc := wexc s; started := started s; sessions := sessions s; next_sid := next_sid s; created := created s; handler := handler s; hgen := hgen s; hplan := hplan s; smutex := smutex s; next_task := next_task s; wfail := wfail s; wpcs := wpcs s; cpcs := cpcs s; script := script s; log := log s |}.
+  {| queue := v; mm := mm s; running := running s; work := work s; wexc := wexc s; started := started s; sessions := sessions s; next_sid := next_sid s; created := created s; handler := handler s; hgen := hgen s; hplan := hplan s; smutex := smutex s; next_task := next_task s; wfail := wfail s; wpcs := wpcs s; cpcs := cpcs s; script := script s; log := log s |}.
 Definition set_mm (v : bool) (s : state) : state :=
-  {| queue := queue s; mm := v; work := work s; wexc := wexc s; started := started s; sessions := sessions s; next_sid := next_sid s; created := created s; handler := handler s; hgen := hgen s; hplan := hplan s; smutex := smutex s; next_task := next_task s; wfail := wfail s; wpcs := wpcs s; cpcs := cpcs s; script := script s; log := log s |}.
+  {| queue := queue s; mm := v; running := running s; work := work s; wexc := wexc s; started := started s; sessions := sessions s; next_sid := next_sid s; created := created s; handler := handler s; hgen := hgen s; hplan := hplan s; smutex := smutex s; next_task := next_task s; wfail := wfail s; wpcs := wpcs s; cpcs := cpcs s; script := script s; log := log s |}.
+Definition set_running (v : bool) (s : state) : state :=
+  {| queue := queue s; mm := mm s; running := v; work := work s; wexc := wexc s; started := started s; sessions := sessions s; next_sid := next_sid s; created := created s; handler := handler s; hgen := hgen s; hplan := hplan s; smutex := smutex s; next_task := next_task s; wfail := wfail s; wpcs := wpcs s; cpcs := cpcs s; script := script s; log := log s |}.
 Definition set_work (v : fut) (s : state) : state :=
-  {| queue := queue s; mm := mm s; work := v; wexc := wexc s; started := started s; sessions := sessions s; next_sid := next_sid s; created := created s; handler := handler s; hgen := hgen s; hplan := hplan s; smutex := smutex s; next_task := next_task s; wfail := wfail s; wpcs := wpcs s; cpcs := cpcs s; script := script s; log := log s |}.
+  {| queue := queue s; mm := mm s; running := running s; work := v; wexc := wexc s; started := started s; sessions := sessions s; next_sid := next_sid s; created := created s; handler := handler s; hgen := hgen s; hplan := hplan s; smutex := smutex s; next_task := next_task s; wfail := wfail s; wpcs := wpcs s; cpcs := cpcs s; script := script s; log := log s |}.
 Definition set_wexc (v : bool) (s : state) : state :=
-  {| queue := queue s; mm := mm s; work := work s; wexc := v; started := started s; sessions := sessions s; next_sid := next_sid s; created := created s; handler := handler s; hgen := hgen s; hplan := hplan s; smutex := smutex s; next_task := next_task s; wfail := wfail s; wpcs := wpcs s; cpcs := cpcs s; script := script s; log := log s |}.
+  {| queue := queue s; mm := mm s; running := running s; work := work s; wexc := v; started := started s; sessions := sessions s; next_sid := next_sid s; created := created s; handler := handler s; hgen := hgen s; hplan := hplan s; smutex := smutex s; next_task := next_task s; wfail := wfail s; wpcs := wpcs s; cpcs := cpcs s; script := script s; log := log s |}.
 Definition set_started (v : bool) (s : state) : state :=
-  {| queue := queue s; mm := mm s; work := work s; wexc := wexc s; started := v; sessions := sessions s; next_sid := next_sid s; created := created s; handler := handler s; hgen := hgen s; hplan := hplan s; smutex := smutex s; next_task := next_task s; wfail := wfail s; wpcs := wpcs s; cpcs := cpcs s; script := script s; log := log s |}.
+  {| queue := queue s; mm := mm s; running := running s; work := work s; wexc := wexc s; started := v; sessions := sessions s; next_sid := next_sid s; created := created s; handler := handler s; hgen := hgen s; hplan := hplan s; smutex := smutex s; next_task := next_task s; wfail := wfail s; wpcs := wpcs s; cpcs := cpcs s; script := script s; log := log s |}.
 Definition set_sessions (v : list nat) (s : state) : state :=
-  {| queue := queue s; mm := mm s; work := work s; wexc := wexc s; started := started s; sessions := v; next_sid := next_sid s; created := created s; handler := handler s; hgen := hgen s; hplan := hplan s; smutex := smutex s; next_task := next_task s; wfail := wfail s; wpcs := wpcs s; cpcs := cpcs s; script := script s; log := log s |}.
+  {| queue := queue s; mm := mm s; running := running s; work := work s; wexc := wexc s; started := started s; sessions := v; next_sid := next_sid s; created := created s; handler := handler s; hgen := hgen s; hplan := hplan s; smutex := smutex s; next_task := next_task s; wfail := wfail s; wpcs := wpcs s; cpcs := cpcs s; script := script s; log := log s |}.
 Definition set_next_sid (v : nat) (s : state) : state :=
-  {| queue := queue s; mm := mm s; work := work s; wexc := wexc s; started := started s; sessions := sessions s; next_sid := v; created := created s; handler := handler s; hgen := hgen s; hplan := hplan s; smutex := smutex s; next_task := next_task s; wfail := wfail s; wpcs := wpcs s; cpcs := cpcs s; script := script s; log := log s |}.
+  {| queue := queue s; mm := mm s; running := running s; work := work s; wexc := wexc s; started := started s; sessions := sessions s; next_sid := v; created := created s; handler := handler s; hgen := hgen s; hplan := hplan s; smutex := smutex s; next_task := next_task s; wfail := wfail s; wpcs := wpcs s; cpcs := cpcs s; script := script s; log := log s |}.
 Definition set_created (v : list nat) (s : state) : state :=
-  {| queue := queue s; mm := mm s; work := work s; wexc := wexc s; started := started s; sessions := sessions s; next_sid := next_sid s; created := v; handler := handler s; hgen := hgen s; hplan := hplan s; smutex := smutex s; next_task := next_task s; wfail := wfail s; wpcs := wpcs s; cpcs := cpcs s; script := script s; log := log s |}.
+  {| queue := queue s; mm := mm s; running := running s; work := work s; wexc := wexc s; started := started s; sessions := sessions s; next_sid := next_sid s; created := v; handler := handler s; hgen := hgen s; hplan := hplan s; smutex := smutex s; next_task := next_task s; wfail := wfail s; wpcs := wpcs s; cpcs := cpcs s; script := script s; log := log s |}.
 Definition set_handler (v : bool) (s : state) : state :=
-  {| queue := queue s; mm := mm s; work := work s; wexc := wexc s; started := started s; sessions := sessions s; next_sid := next_sid s; created := created s; handler := v; hgen := hgen s; hplan := hplan s; smutex := smutex s; next_task := next_task s; wfail := wfail s; wpcs := wpcs s; cpcs := cpcs s; script := script s; log := log s |}.
+  {| queue := queue s; mm := mm s; running := running s; work := work s; wexc := wexc s; started := started s; sessions := sessions s; next_sid := next_sid s; created := created s; handler := v; hgen := hgen s; hplan := hplan s; smutex := smutex s; next_task := next_task s; wfail := wfail s; wpcs := wpcs s; cpcs := cpcs s; script := script s; log := log s |}.
 Definition set_hgen (v : nat) (s : state) : state :=
-  {| queue := queue s; mm := mm s; work := work s; wexc := wexc s; started := started s; sessions := sessions s; next_sid := next_sid s; created := created s; handler := handler s; hgen := v; hplan := hplan s; smutex := smutex s; next_task := next_task s; wfail := wfail s; wpcs := wpcs s; cpcs := cpcs s; script := script s; log := log s |}.
+  {| queue := queue s; mm := mm s; running := running s; work := work s; wexc := wexc s; started := started s; sessions := sessions s; next_sid := next_sid s; created := created s; handler := handler s; hgen := v; hplan := hplan s; smutex := smutex s; next_task := next_task s; wfail := wfail s; wpcs := wpcs s; cpcs := cpcs s; script := script s; log := log s |}.
 Definition set_hplan (v : list outcome) (s : state) : state :=
-  {| queue := queue s; mm := mm s; work := work s; wexc := wexc s; started := started s; sessions := sessions s; next_sid := next_sid s; created := created s; handler := handler s; hgen := hgen s; hplan := v; smutex := smutex s; next_task := next_task s; wfail := wfail s; wpcs := wpcs s; cpcs := cpcs s; script := script s; log := log s |}.
+  {| queue := queue s; mm := mm s; running := running s; work := work s; wexc := wexc s; started := started s; sessions := sessions s; next_sid := next_sid s; created := created s; handler := handler s; hgen := hgen s; hplan := v; smutex := smutex s; next_task := next_task s; wfail := wfail s; wpcs := wpcs s; cpcs := cpcs s; script := script s; log := log s |}.
 Definition set_smutex (v : option tid) (s : state) : state :=
-  {| queue := queue s; mm := mm s; work := work s; wexc := wexc s; started := started s; sessions := sessions s; next_sid := next_sid s; created := created s; handler := handler s; hgen := hgen s; hplan := hplan s; smutex := v; next_task := next_task s; wfail := wfail s; wpcs := wpcs s; cpcs := cpcs s; script := script s; log := log s |}.
+  {| queue := queue s; mm := mm s; running := running s; work := work s; wexc := wexc s; started := started s; sessions := sessions s; next_sid := next_sid s; created := created s; handler := handler s; hgen := hgen s; hplan := hplan s; smutex := v; next_task := next_task s; wfail := wfail s; wpcs := wpcs s; cpcs := cpcs s; script := script s; log := log s |}.
 Definition set_next_task (v : nat) (s : state) : state :=
-  {| queue := queue s; mm := mm s; work := work s; wexc := wexc s; started := started s; sessions := sessions s; next_sid := next_sid s; created := created s; handler := handler s; hgen := hgen s; hplan := hplan s; smutex := smutex s; next_task := v; wfail := wfail s; wpcs := wpcs s; cpcs := cpcs s; script := script s; log := log s |}.
+  {| queue := queue s; mm := mm s; running := running s; work := work s; wexc := wexc s; started := started s; sessions := sessions s; next_sid := next_sid s; created := created s; handler := handler s; hgen := hgen s; hplan := hplan s; smutex := smutex s; next_task := v; wfail := wfail s; wpcs := wpcs s; cpcs := cpcs s; script := script s; log := log s |}.
 Definition set_wfail (v : bool) (s : state) : state :=
-  {| queue := queue s; mm := mm s; work := work s; wexc := wexc s; started := started s; sessions := sessions s; next_sid := next_sid s; created := created s; handler := handler s; hgen := hgen s; hplan := hplan s; smutex := smutex s; next_task := next_task s; wfail := v; wpcs := wpcs s; cpcs := cpcs s; script := script s; log := log s |}.
+  {| queue := queue s; mm := mm s; running := running s; work := work s; wexc := wexc s; started := started s; sessions := sessions s; next_sid := next_sid s; created := created s; handler := handler s; hgen := hgen s; hplan := hplan s; smutex := smutex s; next_task := next_task s; wfail := v; wpcs := wpcs s; cpcs := cpcs s; script := script s; log := log s |}.
 Definition set_wpcs (v : option wpc) (s : state) : state :=
-  {| queue := queue s; mm := mm s; work := work s; wexc := wexc s; started := started s; sessions := sessions s; next_sid := next_sid s; created := created s; handler := handler s; hgen := hgen s; hplan := hplan s; smutex := smutex s; next_task := next_task s; wfail := wfail s; wpcs := v; cpcs := cpcs s; script := script s; log := log s |}.
+  {| queue := queue s; mm := mm s; running := running s; work := work s; wexc := wexc s; started := started s; sessions := sessions s; next_sid := next_sid s; created := created s; handler := handler s; hgen := hgen s; hplan := hplan s; smutex := smutex s; next_task := next_task s; wfail := wfail s; wpcs := v; cpcs := cpcs s; script := script s; log := log s |}.
 Definition set_cpcs (v : cpc) (s : state) : state :=
-  {| queue := queue s; mm := mm s; work := work s; wexc := wexc s; started := started s; sessions := sessions s; next_sid := next_sid s; created := created s; handler := handler s; hgen := hgen s; hplan := hplan s; smutex := smutex s; next_task := next_task s; wfail := wfail s; wpcs := wpcs s; cpcs := v; script := script s; log := log s |}.
+  {| queue := queue s; mm := mm s; running := running s; work := work s; wexc := wexc s; started := started s; sessions := sessions s; next_sid := next_sid s; created := created s; handler := handler s; hgen := hgen s; hplan := hplan s; smutex := smutex s; next_task := next_task s; wfail := wfail s; wpcs := wpcs s; cpcs := v; script := script s; log := log s |}.
 Definition set_script (v : list call) (s : state) : state :=
-  {| queue := queue s; mm := mm s; work := work s; wexc := wexc s; started := started s; sessions := sessions s; next_sid := next_sid s; created := created s; handler := handler s; hgen := hgen s; hplan := hplan s; smutex := smutex s; next_task := next_task s; wfail := wfail s; wpcs := wpcs s; cpcs := cpcs s; script := v; log := log s |}.
+  {| queue := queue s; mm := mm s; running := running s; work := work s; wexc := wexc s; started := started s; sessions := sessions s; next_sid := next_sid s; created := created s; handler := handler s; hgen := hgen s; hplan := hplan s; smutex := smutex s; next_task := next_task s; wfail := wfail s; wpcs := wpcs s; cpcs := cpcs s; script := v; log := log s |}.
 Definition set_log (v : list event) (s : state) : state :=
-  {| queue := queue s; mm := mm s; work := work s; wexc := wexc s; started := started s; sessions := sessions s; next_sid := next_sid s; created := created s; handler := handler s; hgen := hgen s; hplan := hplan s; smutex := smutex s; next_task := next_task s; wfail := wfail s; wpcs := wpcs s; cpcs := cpcs s; script := script s; log := v |}.
+  {| queue := queue s; mm := mm s; running := running s; work := work s; wexc := wexc s; started := started s; sessions := sessions s; next_sid := next_sid s; created := created s; handler := handler s; hgen := hgen s; hplan := hplan s; smutex := smutex s; next_task := next_task s; wfail := wfail s; wpcs := wpcs s; cpcs := cpcs s; script := script s; log := v |}.
 
 Definition emit (e : event) (s : state) : state := set_log (e :: log s) s.
 
 Definition init (h0 : bool) (sc : list call) : state :=
-  {| queue := []; mm := false; work := FNone; wexc := false; started := true;
+  {| queue := []; mm := false; running := false; work := FNone; wexc := false; started := true;
      sessions := []; next_sid := 0; created := []; handler := h0; hgen := 0; hplan := []; smutex := None;
      next_task := 0; wfail := false; wpcs := None; cpcs := CIdle; script := sc; log := [] |}.
 
@@ -294,12 +363,16 @@ Definition step_worker (c : cfg) (s : state) : option state :=
         end
     | WBody t r => Some (set_wpcs (Some WNext) (set_wfail (wfail s || negb (outcome_ok r)) (emit (EExec t) s)))
     | WHasP =>
+        (* HFuture: HasPendingTasks(); HFlag: FinishWork() - the same locked test of the queue, which
+           also clears running_ when it finds the queue empty *)
         match queue s with
-        | [] => Some (set_wpcs (Some WRet) s)
+        | [] => Some (set_wpcs (Some WRet) (if nw c then set_running false s else s))
         | _ :: _ => Some (set_wpcs (Some WNext) s)
         end
     | WRet => Some (set_wpcs (Some WFin) (set_work FReturned s))
-    | WThrow => Some (set_wpcs (Some WFin) (set_wexc true (set_work FReturned s)))
+    | WThrow =>
+        (* HFlag: the catch (...) of StartWork's lambda clears running_ (under the lock) and rethrows *)
+        Some (set_wpcs (Some WFin) (set_wexc true (set_work FReturned (if nw c then set_running false s else s))))
     | WFin => Some (set_wpcs None (emit EDone (set_work FReady s)))
     end
   end.
@@ -361,8 +434,21 @@ Definition step_client (c : cfg) (s : state) : option state :=
       Some (set_cpcs (after_sched rs k)
              (set_next_task (S (next_task s))
                (set_queue (queue s ++ [(next_task s, r)]) (emit (ESched (next_task s)) s))))
-  | CSW0 k => if working s then Some (finish k false s) else Some (set_cpcs (CSW1 k) s)
-  | CSW1 k => Some (set_cpcs (CSW2 k) (set_mm true s))
+  | CSW0 k =>
+      if nw c then
+        (* HFlag: one critical section of Deployer::mutex_: test running_, write maintenance_mode_,
+           test the queue, set running_ *)
+        if running s then Some (finish k false s)
+        else match queue s with
+             | [] => Some (finish k false (set_mm true s))
+             | _ :: _ => Some (set_cpcs (CSW1 k) (set_running true (set_mm true s)))
+             end
+      else if working s then Some (finish k false s) else Some (set_cpcs (CSW1 k) s)
+  | CSW1 k =>
+      if nw c then
+        (* HFlag: if (work_.valid()) work_.wait(): blocks while the previous worker's future is not ready *)
+        if working s then None else Some (set_cpcs (CSW3 k) s)
+      else Some (set_cpcs (CSW2 k) (set_mm true s))
   | CSW2 k => match queue s with [] => Some (finish k false s) | _ :: _ => Some (set_cpcs (CSW3 k) s) end
   | CSW3 k =>
       Some (set_cpcs (CSW4 k) (set_wpcs (Some WEnter) (set_wfail false (set_wexc false (set_work FRunning (emit ESpawn s))))))
@@ -450,9 +536,10 @@ Definition w_acc (tbl : list acc_row) (s : state) : list acc_row :=
   | Some p =>
     match p with
     | WNext => rows tbl "Deployer::NextTask"
-    | WHasP => rows tbl "Deployer::HasPendingTasks"
+    | WHasP => rows tbl "Deployer::HasPendingTasks" ++ rows tbl "Deployer::FinishWork"
     | WN _ _ => rows tbl "Service::Notify" ++ rows tbl "Deployer::ScheduleTask"
-    | WEnter | WBody _ _ | WRet | WThrow | WFin => rows tbl "Deployer::Run"
+    | WThrow => rows tbl "Deployer::Run" ++ rows_var tbl "Deployer::StartWork" VRUNNING  (* the lambda's catch clause *)
+    | WEnter | WBody _ _ | WRet | WFin => rows tbl "Deployer::Run"
     end
   end.
 
@@ -472,11 +559,15 @@ Definition call_acc (tbl : list acc_row) (cl : call) : list acc_row :=
   | CPlan _ => []
   end.
 
+(** does the table show the repaired hand-over (what [nw (cfg_of_table tbl)] says) *)
+Definition tbl_flag (tbl : list acc_row) : bool :=
+  match handover_of_table tbl with HFlag => true | _ => false end.
+
 Definition c_acc (tbl : list acc_row) (s : state) : list acc_row :=
   match cpcs s with
   | CIdle => match script s with [] => [] | cl :: _ => call_acc tbl cl end
   | CSched _ _ => rows tbl "Deployer::ScheduleTask"
-  | CSW0 _ => rows tbl "Deployer::IsWorking"
+  | CSW0 _ => if tbl_flag tbl then rows tbl "Deployer::StartWork" else rows tbl "Deployer::IsWorking"
   | CSW1 _ | CSW2 _ | CSW3 _ => rows tbl "Deployer::StartWork"
   | CSW4 _ => []
   | CCreate1 => rows tbl "Service::CreateSession"
@@ -536,6 +627,17 @@ Definition witness_window_sched : list tid :=
 (** same window through start_maintenance, which reports True although nothing was started *)
 Definition witness_window_sm_script : list call :=
   [CStartMaint [OOk; OOk; OOk]; CStartMaint [OOk; OOk; OOk]; CJoin; CIsMaint].
+
+(** the repaired hand-over (HFlag) along the same schedule: the second sync_user_data finds running_
+    cleared, takes the worker role, waits for the first worker's future (the worker step), starts a
+    second worker and returns True; that worker runs tasks 3,4,5; join; is_maintenance_mode = False
+    with all six tasks run. *)
+Definition witness_closed_sched : list tid := witness_window_sched ++ rep 16 Worker ++ [Client; Client].
+(** HFlag, tasks scheduled just BEFORE the worker's exit test (the worker is parked at
+    RIME_VERIF_FINISHWORK_ENTER): sync_user_data finds running_ set and returns False, the worker's
+    exit test finds the three tasks and the same worker runs them. *)
+Definition witness_seen_sched : list tid :=
+  rep 6 Client ++ rep 14 Worker ++ rep 4 Client ++ rep 13 Worker ++ [Client; Client].
 
 (** unlocked handler: Notify has tested the handler and holds Service::mutex_;
     the client clears the handler without the mutex; Notify calls an empty function *)
